@@ -12,7 +12,6 @@ from typing import (
     List,
     Optional,
     Sequence,
-    Set,
     Tuple,
 )
 
@@ -416,6 +415,11 @@ class AhocorasickTokenizer(Tokenizer):
 
     def __post_init__(self):
         """Set up helpers to narrow down possible extractors."""
+        # Remember each extractor's position so that the filtered extractors
+        # can be run in the same order as the unfiltered ones
+        self.extractor_order = {
+            id(e): i for i, e in enumerate(self.extractors)
+        }
         # Build a set of all extractors that don't list required strings
         self.unfiltered_extractors = set(
             e for e in self.extractors if not e.strings
@@ -435,7 +439,7 @@ class AhocorasickTokenizer(Tokenizer):
             for s in e.strings
         )
 
-    def get_extractors(self, text: str) -> Set[TokenExtractor]:
+    def get_extractors(self, text: str) -> List[TokenExtractor]:
         """Override get_extractors() to filter out extractors
         that can't possibly match."""
         unique_extractors = set(self.unfiltered_extractors)
@@ -443,7 +447,9 @@ class AhocorasickTokenizer(Tokenizer):
             unique_extractors.update(extractors)
         for _, extractors in self.case_insensitive_filter.iter(text.lower()):
             unique_extractors.update(extractors)
-        return unique_extractors
+        return sorted(
+            unique_extractors, key=lambda e: self.extractor_order[id(e)]
+        )
 
     @staticmethod
     def make_ahocorasick_filter(
